@@ -4,9 +4,10 @@ CONSTANTS
   MaxProd = 4  MaxTables = 1  MaxDepth = 3
   OpenKinds = {"Device"}  DeclKindsOn = {"Event"}
   Forms = {}
+  FieldKinds = {"Field", "IndexField", "BankField"}
   ScopeOn = TRUE  FieldOn = FALSE  MethodFlags = {}  StmtKinds = {}  MaxStmts = 0
   Widths = {}
-  Excluded = {"D1", "D1b", "D2", "D2c", "D5", "D7", "D8", "D9"}
+  Excluded = {"D1", "D1b", "D2", "D2c", "D5", "D7", "D8", "D9", "D10", "D11"}
   Emit = FALSE  Bug = ""
 INIT Init
 NEXT Next
